@@ -2098,11 +2098,15 @@ class DiskObjectStore(PackBasedObjectStore):
         Raises:
           KeyError: if the object is not found
         """
+        # An object may be stored more than once (loose and packed, or in
+        # several packs); its age is that of the most recent copy.
+        mtimes: list[float] = []
+
         # First check if it's a loose object
         if self.contains_loose(sha):
             path = self._get_shafile_path(sha)
             try:
-                return os.path.getmtime(path)
+                mtimes.append(os.path.getmtime(path))
             except FileNotFoundError:
                 pass
 
@@ -2113,12 +2117,14 @@ class DiskObjectStore(PackBasedObjectStore):
                     # Use the pack file's mtime for packed objects
                     pack_path = pack._data_path
                     try:
-                        return os.path.getmtime(pack_path)
+                        mtimes.append(os.path.getmtime(pack_path))
                     except (FileNotFoundError, AttributeError):
                         pass
             except PackFileDisappeared:
                 pass
 
+        if mtimes:
+            return max(mtimes)
         raise KeyError(sha)
 
     def _remove_pack(self, pack: Pack) -> None:
@@ -2232,6 +2238,12 @@ class DiskObjectStore(PackBasedObjectStore):
                 # The objects are already packed; drop the temporary pack we
                 # were about to move in rather than leaking it into pack_dir.
                 _remove_readonly(path)
+                # The caller has just written these objects again (e.g. a
+                # repack absorbing freshened loose copies): give the pack
+                # that keeps them a fresh mtime, or age-based pruning would
+                # treat them as old.
+                with suppress(OSError):
+                    os.utime(pack._data_path, None)
                 return pack
 
         target_pack_path = pack_base_name + ".pack"
